@@ -95,7 +95,9 @@ def draw_scenario(cs, cfg):
         if i > 0 and cs.bool("user_edit", 1, 8):
             # between two calls the caller rebinds one tensor attribute of its object (e.g. unties two names that
             # shared a tensor): from then on THAT is the state every later call has to preserve
-            ops.append({"op": "EDIT", "debug": None, "nest": [], "seed": cs.draw(1000, "opseed")})
+            # ... or freezes a registered Parameter: re-registers it as a buffer, or keeps it as a plain attribute
+            ops.append({"op": "EDIT", "debug": None, "nest": [], "seed": cs.draw(1000, "opseed"),
+                        "how": ["rebind", "to_buffer", "to_plain"][cs.weighted([2, 1, 1], "edit_how")]})
             continue
         if not cands or cs.bool("fwd", 1, 2):
             op = {"op": "FWD", "F": draw_functional(cs, sc)}
@@ -818,7 +820,18 @@ def execute(sc, plan, reference=None, collect=None):
                 for p_ in parts[:-1]:
                     obj = obj[eval(p_[1:])] if p_.startswith("[") else getattr(obj, p_)
                 last = parts[-1]
-                if last.startswith("["):
+                how = op.get("how", "rebind")
+                if how != "rebind" and isinstance(obj, torch.nn.Module) and isinstance(old, torch.nn.Parameter) \
+                        and last in obj._parameters:
+                    # the caller freezes the parameter: from now on it is a constant of the module
+                    const = old.detach().clone()
+                    delattr(obj, last)
+                    if how == "to_buffer":
+                        obj.register_buffer(last, const)
+                    else:
+                        setattr(obj, last, const)
+                    SIM.count("reach.user_freezes_parameter_between_calls")
+                elif last.startswith("["):
                     obj[eval(last[1:])] = new
                 else:
                     setattr(obj, last, new)
